@@ -474,6 +474,21 @@ fn main() {
                 }
             }
         }
+        Some("child-exec") => {
+            // fresh-process executor of C20: request on stdin, raw result bytes on stdout
+            let mut req = String::new();
+            let _ = std::io::Read::read_to_string(&mut std::io::stdin(), &mut req);
+            match props::c20::child_exec(&req) {
+                Ok(s) => {
+                    println!("{}", s);
+                    0
+                }
+                Err(e) => {
+                    println!("{}", e);
+                    1
+                }
+            }
+        }
         Some("gen-corpus") => {
             gen_corpus();
             0
